@@ -100,6 +100,20 @@ int main()
       }
       std::cout << sep << o;
       sep = " ";
+      // value semantics: a converter is copyable, and a copy is an independent object.  Every third step a copy is made and
+      // then re-anchored far away (or reset); the original, used for the rest of the sequence, must not notice.  On the
+      // other steps of the same residue the roles are swapped: the sequence continues on the COPY and the original is reset.
+      if (i % 3 == 1) {
+        ENUConverter copy(*c);
+        GeodeticCoordinates far;
+        far.latitude = -0.7 + 0.01 * static_cast<double>(i); far.longitude = 2.5; far.altitude = 321.0;
+        if (i % 2) {copy.setAnchor(far);} else {copy.reset();}
+      } else if (i % 7 == 3) {
+        ENUConverter * copy = new ENUConverter(*c);
+        c->reset();
+        delete c;
+        c = copy;
+      }
     }
     std::cout << "\n";
     delete c;
